@@ -440,6 +440,10 @@ func runC12(c *eng.Ctx) {
 	// a malformed metrics file fails the execution: the stream is decoded to its end
 	streamDecodedToEOF(c, r4, pkgMOp+".MetricOperationsFromReader")
 
+	// R6 a zero exit is a success: nothing makes Wait fail after the process has exited with status 0
+	r6 := c.Rule("C12.R6", "G:who-may-write", "no product code sets os/exec.Cmd.WaitDelay or Cmd.Cancel: with either, Wait reports an error (ErrWaitDelay, the Cancel error) for a process that exited with status 0", 1)
+	runC12R6(c, r6)
+
 	// R5 who runs hooks
 	r5 := c.Rule("C12.R5", "C:who-calls", "Hook.Run is called only from handleRunHook; the hook executable is started for --config only from loadHook", 2)
 	whoCalls(c, r5, p.Method(pkgHook, "Hook", "Run"), "Hook.Run", map[string]string{pkgOp + ".(*ShellOperator).handleRunHook": "the single place that executes a hook for a task"},
@@ -521,4 +525,69 @@ func runHookFailureIsError(c *eng.Ctx, r4 *eng.RuleCtx) {
 	if f := r4.NeedFunc(pkgExec + ".(*Executor).RunAndLogLines"); f != nil {
 		checkErrSites(r4, f, func(o types.Object) bool { return nameOf(o) == "Run" }, nil, nil)
 	}
+}
+
+// runC12R6: exec.Cmd.Wait returns nil for exit status 0 unless the pipes cannot be drained in WaitDelay (a hook that
+// leaves a background process holding its stdout) or Cancel was invoked. Both are opt-in fields of exec.Cmd; the
+// property "non-zero exit is a failure, after a zero exit the outputs are parsed" needs them unset (or zero).
+func runC12R6(c *eng.Ctx, r *eng.RuleCtx) {
+	p := c.P
+	cmd, _ := p.ExtObject("os/exec", "Cmd").(*types.TypeName)
+	if cmd == nil {
+		r.Unknown("anchor:os/exec.Cmd", token.NoPos, "type not found")
+		return
+	}
+	st, _ := cmd.Type().Underlying().(*types.Struct)
+	flds := map[*types.Var]bool{}
+	for i := 0; st != nil && i < st.NumFields(); i++ {
+		if n := st.Field(i).Name(); n == "WaitDelay" || n == "Cancel" {
+			flds[st.Field(i)] = true
+		}
+	}
+	if len(flds) != 2 {
+		r.Unknown("anchor:os/exec.Cmd.WaitDelay/Cancel", token.NoPos, "fields not found")
+		return
+	}
+	n := 0
+	for _, pk := range p.Pkgs {
+		info := pk.TypesInfo
+		zero := func(e ast.Expr) bool {
+			if tv, ok := info.Types[e]; ok && (tv.IsNil() || tv.Value != nil && tv.Value.String() == "0") {
+				return true
+			}
+			return false
+		}
+		for _, f := range pk.Syntax {
+			if strings.HasSuffix(p.Fset.Position(f.Pos()).Filename, "_test.go") {
+				continue
+			}
+			ast.Inspect(f, func(nd ast.Node) bool {
+				switch t := nd.(type) {
+				case *ast.AssignStmt:
+					for i, l := range t.Lhs {
+						sel, ok := ast.Unparen(l).(*ast.SelectorExpr)
+						if !ok {
+							continue
+						}
+						if v, _ := info.Uses[sel.Sel].(*types.Var); v != nil && flds[v] {
+							if len(t.Lhs) == len(t.Rhs) && zero(t.Rhs[i]) {
+								continue
+							}
+							n++
+							r.Bad("exec.Cmd."+v.Name()+" set", t.Pos(), "a hook that exits with status 0 can now be reported as failed (Wait returns an error although the exit status is 0): its outputs are not applied and the task is retried")
+						}
+					}
+				case *ast.KeyValueExpr:
+					if id, ok := t.Key.(*ast.Ident); ok {
+						if v, _ := info.Uses[id].(*types.Var); v != nil && flds[v] && !zero(t.Value) {
+							n++
+							r.Bad("exec.Cmd."+v.Name()+" set", t.Pos(), "a hook that exits with status 0 can now be reported as failed (Wait returns an error although the exit status is 0): its outputs are not applied and the task is retried")
+						}
+					}
+				}
+				return true
+			})
+		}
+	}
+	r.Ok("stores to exec.Cmd.WaitDelay / Cancel enumerated", token.NoPos, fmt.Sprintf("%d non-zero store(s) in the product packages", n))
 }
